@@ -105,6 +105,21 @@ DE_MODEL = {
     "DE.slice-len": ("[(1, OArr [VInt 2 1; VInt 2 2]); (2, OArr [VInt 2 1; VInt 2 2; VInt 2 3])]", "(VSlice 23 1 0 2)", "(VSlice 23 2 0 3)"),
     "DE.slice-same-backing": ("[(1, OArr [VInt 2 1; VInt 2 2; VInt 2 3; VInt 2 4])]", "(VSlice 23 1 0 2)", "(VSlice 23 1 0 2)"),
     "DE.slice-overlap": ("[(1, OArr [VInt 2 1; VInt 2 2; VInt 2 3; VInt 2 4])]", "(VSlice 23 1 0 2)", "(VSlice 23 1 1 2)"),
+    "DE.alias-prefix": ("[(1, OArr [VInt 2 1; VInt 2 2; VInt 2 3; VInt 2 4])]", "(VSlice 23 1 0 2)", "(VSlice 23 1 0 3)"),
+    "DE.alias-empty-vs-all": ("[(1, OArr [VInt 2 1; VInt 2 2; VInt 2 3; VInt 2 4])]", "(VSlice 23 1 0 0)", "(VSlice 23 1 0 4)"),
+    "DE.alias-empty-vs-empty-cap": ("[(1, OArr [VInt 2 1; VInt 2 2; VInt 2 3; VInt 2 4])]", "(VSlice 23 1 0 0)", "(VSlice 23 1 0 0)"),
+    "DE.alias-append-in-place": ("[(1, OArr [VInt 2 0; VInt 2 0; VInt 2 0])]", "(VSlice 23 1 0 2)", "(VSlice 23 1 0 3)"),
+    "DE.alias-tail": ("[(1, OArr [VInt 2 1; VInt 2 2; VInt 2 3; VInt 2 4])]", "(VSlice 23 1 1 2)", "(VSlice 23 1 1 3)"),
+    "DE.alias-same-len-same-ptr": ("[(1, OArr [VInt 2 1; VInt 2 2; VInt 2 3; VInt 2 4])]", "(VSlice 23 1 0 3)", "(VSlice 23 1 0 3)"),
+    "DE.alias-array-slices": ("[(1, OArr [VInt 2 1; VInt 2 2; VInt 2 3; VInt 2 4])]", "(VSlice 23 1 0 2)", "(VSlice 23 1 0 3)"),
+    "DE.alias-nested": ("[(1, OArr [VInt 2 1; VInt 2 2; VInt 2 3; VInt 2 4]); (2, OArr [VSlice 23 1 0 1; VSlice 23 1 0 2]); (3, OArr [VSlice 23 1 0 1; VSlice 23 1 0 3])]",
+                        "(VSlice 24 2 0 2)", "(VSlice 24 3 0 2)"),
+    "DE.alias-in-iface": ("[(1, OArr [VInt 17 97; VInt 17 98; VInt 17 99]); (2, OArr [VIface 20 (Some (VSlice 23 1 0 2))]); (3, OArr [VIface 20 (Some (VSlice 23 1 0 3))])]",
+                          "(VSlice 24 2 0 1)", "(VSlice 24 3 0 1)"),
+    "DE.alias-in-struct": ("[(1, OArr [VInt 17 97; VInt 17 98; VInt 17 99])]", "(VStruct 25 [VInt 2 1; VSlice 23 1 0 1; VMap 21 0; VFunc 19 true])",
+                           "(VStruct 25 [VInt 2 1; VSlice 23 1 0 2; VMap 21 0; VFunc 19 true])"),
+    "DE.alias-in-map": ("[(1, OArr [VInt 17 97; VInt 17 98; VInt 17 99]); (2, OMap [(VInt 17 107, VSlice 23 1 0 1)]); (3, OMap [(VInt 17 107, VSlice 23 1 0 3)])]",
+                        "(VMap 21 2)", "(VMap 21 3)"),
     "DE.map-missing-key": ("[(1, OMap [(VInt 17 97, VInt 2 1); (VInt 17 98, VInt 2 0)]); (2, OMap [(VInt 17 97, VInt 2 1); (VInt 17 99, VInt 2 0)])]",
                            "(VMap 21 1)", "(VMap 21 2)"),
     "DE.ptr-same-target-value": ("[(1, OVal (VInt 2 3)); (2, OVal (VInt 2 3))]", "(VPtr 22 1)", "(VPtr 22 2)"),
@@ -388,7 +403,7 @@ def classify_e2e(k, attr, fam, lv, gv, t):
             return ["reflect-string-typearg-literal-fallback"]
         if "nonascii-method" in fs and re.match(r"(Method|MethodByName|Call|NumMethod)", attr):
             return ["reflect-method-table-nonascii-exported-after-unexported"]
-        if "nonascii-field" in fs and re.match(r"(dump|Zero|Field|fmt|Call|Sprint)", attr):
+        if "nonascii-field" in fs and re.match(r"(dump|Zero|Field|fmt|Call|Sprint|setAll)", attr):
             return ["reflect-field-nonascii-exported-treated-unexported"]
     tag = k.split("|")[0]
     grp = re.sub(r"\d+", "", tag.split(".")[0])
